@@ -270,7 +270,7 @@ def run(ctx):
     good = [r for r in recs if ver[r['id']]['ok'] and r['kind'] == 'detect' and not r['none']][:6]
     bad = []
     for k, r in enumerate(good):
-        r2 = json.loads(json.dumps(r)); r2['id'] = 10**9 + k
+        r2 = core.jcopy(r); r2['id'] = 10**9 + k
         if k % 2 == 0:
             r2['out'][0][0] = 0 if r2['out'][0][0] else 1
         else:
